@@ -19,6 +19,7 @@ const (
 	tObj  // fixed fields
 	tDict // object/map with arbitrary keys, values of type elem
 	tNull
+	tSet // set of elem (environment values only: there is no literal syntax)
 )
 
 type ty struct {
@@ -60,7 +61,7 @@ func compat(a, w *ty) bool {
 			return true
 		}
 		return compat(a.elem, w.elem)
-	case tDict:
+	case tDict, tSet:
 		return compat(a.elem, w.elem)
 	case tObj:
 		if len(a.fields) != len(w.fields) {
@@ -242,6 +243,155 @@ func listable(t *ty) bool {
 	return false
 }
 
+// fixedTy: the cty type of every collVal of this generator type (list/map/set rendering),
+// or nil if it has none (tuples of varying shape, untyped null).
+func fixedTy(t *ty) *TyDesc {
+	switch t.k {
+	case tNum:
+		return &TyDesc{K: "num"}
+	case tStr:
+		return &TyDesc{K: "str"}
+	case tBool:
+		return &TyDesc{K: "bool"}
+	case tSeq, tDict, tSet:
+		e := fixedTy(t.elem)
+		if e == nil {
+			return nil
+		}
+		return &TyDesc{K: map[int]string{tSeq: "list", tDict: "map", tSet: "set"}[t.k], Elem: e}
+	case tObj:
+		d := &TyDesc{K: "object"}
+		for _, f := range t.fields {
+			e := fixedTy(f.t)
+			if e == nil {
+				return nil
+			}
+			d.Keys = append(d.Keys, f.name)
+			d.Elems = append(d.Elems, *e)
+		}
+		return d
+	}
+	return nil
+}
+
+// anyTy: some cty type for a null / unknown of this generator type (tuples for
+// sequences without a fixed element type).
+func anyTy(t *ty) *TyDesc {
+	if d := fixedTy(t); d != nil {
+		return d
+	}
+	switch t.k {
+	case tSeq:
+		d := &TyDesc{K: "tuple", Elems: []TyDesc{}}
+		for i := 0; i < t.n; i++ {
+			d.Elems = append(d.Elems, *anyTy(t.elem))
+		}
+		return d
+	case tObj:
+		d := &TyDesc{K: "object"}
+		for _, f := range t.fields {
+			d.Keys = append(d.Keys, f.name)
+			d.Elems = append(d.Elems, *anyTy(f.t))
+		}
+		return d
+	case tDict:
+		return &TyDesc{K: "object"}
+	}
+	return &TyDesc{K: "dyn"}
+}
+
+// collVal renders a value with cty LIST / MAP / SET types wherever the type allows.
+func (g *G) collVal(t *ty) Val {
+	switch t.k {
+	case tSeq:
+		et := fixedTy(t.elem)
+		if et == nil {
+			return g.randVal(t)
+		}
+		v := Val{T: "list", Ty: et}
+		for i := 0; i < t.n; i++ {
+			v.Elems = append(v.Elems, g.collVal(t.elem))
+		}
+		return v
+	case tSet:
+		v := Val{T: "set", Ty: fixedTy(t.elem)}
+		seen := map[string]bool{}
+		for i := g.int(0, 3, "setn"); i > 0; i-- {
+			e := g.randVal(t.elem)
+			key := e.T + "|" + e.N + "|" + e.S + fmt.Sprint(e.B)
+			if seen[key] {
+				continue
+			}
+			seen[key] = true
+			v.Elems = append(v.Elems, e)
+		}
+		t.n = len(v.Elems)
+		return v
+	case tDict:
+		et := fixedTy(t.elem)
+		if et == nil {
+			return g.randVal(t)
+		}
+		v := Val{T: "map", Ty: et}
+		used := map[string]bool{}
+		for i := g.int(0, 3, "mapn"); i > 0; i-- {
+			k := pickS(g, dictKeys, "mapk")
+			if used[k] {
+				continue
+			}
+			used[k] = true
+			v.Keys = append(v.Keys, k)
+			v.Elems = append(v.Elems, g.collVal(t.elem))
+		}
+		t.keys = append([]string{}, v.Keys...)
+		return v
+	case tObj:
+		v := Val{T: "object"}
+		for _, f := range t.fields {
+			v.Keys = append(v.Keys, f.name)
+			v.Elems = append(v.Elems, g.collVal(f.t))
+		}
+		return v
+	}
+	return g.randVal(t)
+}
+
+// collType: a list / map / set type of primitives, of objects, or nested
+func (g *G) collType() *ty {
+	var elem *ty
+	switch g.w("collelem", 4, 3, 2, 2) {
+	case 0:
+		elem = g.randType(0)
+	case 1:
+		n := g.int(1, 2, "collnf")
+		used := map[string]bool{}
+		var fs []fld
+		for i := 0; i < n; i++ {
+			nm := pickS(g, attrNames, "collfname")
+			if !used[nm] {
+				used[nm] = true
+				fs = append(fs, fld{nm, g.randType(0)})
+			}
+		}
+		sortFields(fs)
+		elem = &ty{k: tObj, fields: fs}
+	case 2:
+		elem = seqOf(g.randType(0), g.int(0, 2, "collinnern"))
+	default:
+		elem = dictOf(g.randType(0))
+	}
+	switch g.w("collkind", 4, 3, 2) {
+	case 0:
+		return dictOf(elem)
+	case 1:
+		return seqOf(elem, g.int(0, 3, "colllen"))
+	}
+	if !elem.prim() {
+		elem = g.randType(0)
+	}
+	return &ty{k: tSet, elem: elem, n: -1}
+}
+
 // GenEnv draws 0-6 variables of mixed types.
 func (g *G) GenEnv() []Var {
 	n := g.int(0, 6, "nvars")
@@ -253,9 +403,48 @@ func (g *G) GenEnv() []Var {
 			continue
 		}
 		used[nm] = true
-		t := g.randType(2)
-		out = append(out, Var{Name: nm, V: g.randVal(t)})
-		g.scope = append(g.scope, gvar{name: nm, t: t})
+		switch g.w("varclass", 8, 6, 2, 2) {
+		case 1:
+			// cty LIST / MAP / SET values (of primitives, of objects, nested, possibly empty)
+			t := g.collType()
+			out = append(out, Var{Name: nm, V: g.collVal(t)})
+			g.scope = append(g.scope, gvar{name: nm, t: t})
+		case 2:
+			// a null of some type (incl. map / list / set / object / untyped)
+			var d *TyDesc
+			switch g.w("nullty", 3, 3, 1) {
+			case 0:
+				d = anyTy(g.collType())
+			case 1:
+				d = anyTy(g.randType(2))
+			default:
+				d = &TyDesc{K: "dyn"}
+			}
+			out = append(out, Var{Name: nm, V: Val{T: "nullof", Ty: d}})
+			g.scope = append(g.scope, gvar{name: nm, t: tyNull})
+		case 3:
+			// an unknown value: the variable is used as if it had the type
+			var t *ty
+			if g.bool("unkcoll") {
+				t = g.collType()
+			} else {
+				t = g.randType(1)
+			}
+			d := anyTy(t)
+			if g.pct(20, "unkdyn") {
+				d = &TyDesc{K: "dyn"}
+			}
+			if t.k == tSeq {
+				t = seqOf(t.elem, -1)
+			}
+			t.keys = nil
+			out = append(out, Var{Name: nm, V: Val{T: "unknownof", Ty: d}})
+			g.scope = append(g.scope, gvar{name: nm, t: t})
+		default:
+			t := g.randType(2)
+			out = append(out, Var{Name: nm, V: g.randVal(t)})
+			g.scope = append(g.scope, gvar{name: nm, t: t})
+		}
 	}
 	// selector variables: a string variable NAMED like a field of an object variable whose VALUE
 	// is (another) field name of that object, so that  obj.b  /  obj[b]  /  {b = ..}  /  {(b) = ..}
@@ -324,7 +513,9 @@ func (g *G) GenFuncs() []FuncDef {
 			fd.VarParam = "rest"
 			sc = append(sc, gvar{name: "rest", t: seqOf(tyNum, -1)})
 		}
-		switch g.int(0, 4, "rty") {
+		switch g.int(0, 5, "rty") {
+		case 5:
+			gf.ret = dictOf(g.randType(0))
 		case 0, 1:
 			gf.ret = tyNum
 		case 2:
@@ -901,6 +1092,20 @@ func (g *G) seqExpr(w *ty, d int) *Node {
 
 // source of an iteration: expression + types of the key and value variables
 func (g *G) iterSource(d int) (*Node, *ty, *ty) {
+	// a set variable, if there is one: key and value are both the element
+	if g.pct(20, "iterset") {
+		seen := map[string]bool{}
+		for i := len(g.scope) - 1; i >= 0; i-- {
+			v := g.scope[i]
+			if seen[v.name] {
+				continue
+			}
+			seen[v.name] = true
+			if v.t.k == tSet {
+				return &Node{K: KVar, Name: v.name}, v.t.elem, v.t.elem
+			}
+		}
+	}
 	switch g.w("itersrc", 5, 3, 2) {
 	case 0:
 		et := g.randType(1)
@@ -1008,6 +1213,32 @@ func (g *G) dictExpr(w *ty, d int) *Node {
 }
 
 func (g *G) splat(elem *ty, d int) *Node {
+	// a splat applied to a single (non-sequence) value: primitives, objects and MAPS are
+	// wrapped into a one-element tuple
+	if elem.k != tSeq && elem.k != tSet && g.pct(30, "splatsingle") {
+		// m.*.k / m[*].k with a map or object variable whose keys are known
+		if g.bool("splatdictattr") {
+			seen := map[string]bool{}
+			for i := len(g.scope) - 1; i >= 0; i-- {
+				v := g.scope[i]
+				if seen[v.name] {
+					continue
+				}
+				seen[v.name] = true
+				if v.t.k == tDict && len(v.t.keys) > 0 && compat(v.t.elem, elem) {
+					k := v.t.keys[g.int(0, len(v.t.keys)-1, "splatdictkey")]
+					var each *Node
+					if isIdent(k) {
+						each = &Node{K: KAttr, A: &Node{K: KIt}, Name: k}
+					} else {
+						each = &Node{K: KIndex, A: &Node{K: KIt}, B2: strLit(k)}
+					}
+					return &Node{K: KSplat, A: &Node{K: KVar, Name: v.name}, Each: each, Full: g.bool("fullsplat")}
+				}
+			}
+		}
+		return &Node{K: KSplat, A: g.Expr(elem, d-1), Each: &Node{K: KIt}, Full: g.bool("fullsplat")}
+	}
 	// prefer a variable in scope that is a sequence of objects with a field of the wanted type
 	if g.bool("splatvar") {
 		seen := map[string]bool{}
@@ -1042,7 +1273,8 @@ func (g *G) splat(elem *ty, d int) *Node {
 		// a single object: auto-wrapped into a one-element tuple
 		src = g.Expr(ot, d-1)
 	case 2:
-		src = &Node{K: KNull}
+		// a null source: the untyped null or a variable holding a null of some type
+		src = g.leaf(tyNull)
 	default:
 		src = g.Expr(seqOf(ot, -1), d-1)
 	}
@@ -1495,6 +1727,9 @@ func (g *G) RootType() *ty {
 	prim := func() *ty { return []*ty{tyNum, tyNum, tyStr, tyBool}[g.int(0, 3, "rootprim")] }
 	switch g.w("rootty", 4, 4, 3, 3, 2, 2, 1, 1) {
 	case 0:
+		if g.pct(30, "rootseqdict") {
+			return seqOf(dictOf(prim()), -1)
+		}
 		return seqOf(g.randType(1), -1)
 	case 1:
 		return tyNum
